@@ -29,7 +29,7 @@ for s in seeds:
     try:
         for c in checks:
             t0 = time.time()
-            p = subprocess.run(f"cd /verif && ./check {c} --tier {a.tier}", shell=True, capture_output=True, text=True)
+            p = subprocess.run(f"cd /verif && timeout 3600 ./check {c} --tier {a.tier}", shell=True, capture_output=True, text=True)
             viol = [l for l in p.stdout.splitlines() if l.startswith("VIOLATION")]
             other = [l for l in p.stdout.splitlines() if l.startswith(("CHECKER-ERROR", "UNDECIDED"))]
             results.setdefault(s, {})[c] = {"exit": p.returncode, "violations": len(viol), "first": (viol or other or [""])[0][:300], "secs": round(time.time() - t0, 1)}
